@@ -56,11 +56,18 @@ func (t Tree) realDir() string {
 }
 
 // write materialises the tree under the scratch root (everything there is removed first).
-func (t Tree) write() {
+func (t Tree) write() { t.writeOpt(true) }
+
+// writeKeep adds the tree to what is already under the scratch root.
+func (t Tree) writeKeep() { t.writeOpt(false) }
+
+func (t Tree) writeOpt(wipe bool) {
 	root := enterScratch()
-	ents, _ := os.ReadDir(root)
-	for _, e := range ents {
-		os.RemoveAll(filepath.Join(root, e.Name()))
+	if wipe {
+		ents, _ := os.ReadDir(root)
+		for _, e := range ents {
+			os.RemoveAll(filepath.Join(root, e.Name()))
+		}
 	}
 	must(os.MkdirAll(filepath.Join(root, t.realDir()), 0o755))
 	for _, d := range t.Extra {
